@@ -330,6 +330,7 @@ func checkC20(c *Check) {
 			}
 		}
 	}
+	poolInsertIsFinal(c, "C20.R4")
 	c.Obl(okID, "C20.R4", "id-is-hash-of-settings", P.Pos(load.Pos()), "pool id = encodeConfig(settings).hash()", "the pool id is not the hash of the encoded settings of the requested configuration")
 
 	// ---- R5
@@ -576,4 +577,43 @@ func checkC20(c *Check) {
 func strNonEmptySame(fs FactSet, call *ssa.Call) bool {
 	e, k := fs.strEmpty(call)
 	return k && !e
+}
+
+// poolInsertIsFinal: a TLS configuration enters the pool only when it is complete — after the insertion
+// into the pool map LoadTLSConfig cannot fail any more. An entry inserted before the CA is loaded survives a
+// failed load and is handed out (without the CA) by every later call. Filed under C20.R4 and C03.R5.
+func poolInsertIsFinal(c *Check, rule string) {
+	P := c.P
+	load := P.Func(pkgInt, "(*tlsConfigPool).LoadTLSConfig")
+	if !c.Anchor(rule, "tlsConfigPool.LoadTLSConfig", load != nil) {
+		return
+	}
+	n := 0
+	for _, fn := range deepFuncs(load, 2) {
+		if pkgPathOf(fn) != pkgInt {
+			continue
+		}
+		for _, b := range fn.Blocks {
+			for _, ins := range b.Instrs {
+				mu, ok := ins.(*ssa.MapUpdate)
+				if !ok {
+					continue
+				}
+				if cl, _ := classOfMap(mu.Map); cl != "internal.tlsConfigPool.configs[]" {
+					continue
+				}
+				n++
+				hit := reachAvoiding(mu, nil, func(i ssa.Instruction) bool {
+					r, isR := i.(*ssa.Return)
+					if !isR || i.Parent() != load || len(r.Results) != 2 {
+						return false
+					}
+					return !isNilConst(r.Results[1])
+				}, nil)
+				c.Obl(hit == nil || fn != load, rule, "pool-insert-is-final/"+fnKey(fn), P.Pos(mu.Pos()), "after the insertion into the pool the load cannot fail",
+					"the configuration is put into the pool before loading can still fail ("+posOf(P, hit)+" returns an error afterwards): the half-built entry — without the trusted CA — is handed out by every later call")
+			}
+		}
+	}
+	c.Obl(n >= 1, rule, "pool-insert-found", P.Pos(load.Pos()), fmt.Sprintf("%d insertion(s) into the pool map", n), "no insertion into the pool map found (anchor lost)")
 }
